@@ -29,6 +29,27 @@ theorem flow_matches_dump_many : Gen.ApiFlow.dumpMany = Ref.dumpMany := by decid
 /-- api.py `write_input` has the transcribed shape. -/
 theorem flow_matches_write_input : Gen.ApiFlow.writeInput = Ref.writeInput := by decide
 
+/-- The decorator around every API function, statement by statement: `func` runs inside
+`warnings.catch_warnings(record=True)` with the caller's filters left in force (no `simplefilter` inside, so a
+caller's warnings-as-errors setting makes the warning raise *inside* `func`, where the funnels turn it into
+`PrepareDumpError` before the file is opened, or `DumpError`); what was recorded is re-issued afterwards; the
+`try/finally` has no `except`, so exceptions of `func` pass through unchanged and its result is returned. -/
+theorem reissue_wrapper_shape :
+    Gen.ApiFlow.reissueBody =
+      ["def _reissue_warnings(func):", "", "    def inner(*args, **kwargs):", "        warning_list = []",
+       "        try:", "            with warnings.catch_warnings(record=True) as warning_list:",
+       "                result = func(*args, **kwargs)", "        finally:",
+       "            for warning in warning_list:",
+       "                warnings.warn(warning.message, warning.category, stacklevel=2)",
+       "        return result", "    return inner"] := by decide
+
+/-- every API entry point carries exactly that decorator and no other. -/
+theorem api_decorators_pinned :
+    Gen.ApiFlow.decorators =
+      [("_check_required", []), ("dump_one", ["_reissue_warnings"]), ("dump_many", ["_reissue_warnings"]),
+       ("write_input", ["_reissue_warnings"]), ("load_one", ["_reissue_warnings"]),
+       ("load_many", ["_reissue_warnings"]), ("convert", []), ("main", [])] := by decide
+
 /-! ### `dump_one` -/
 
 /-- every required attribute is `None` or has a value and at least one is `None` ⇒ the check loop raises
